@@ -34,7 +34,8 @@ def rec_text(desc):
 
 def parseable(desc):
     pts = [desc["a"]] + ([desc["s"]] if desc["fmt"] == 1 else [])
-    return all(p["prec"] == "hms" and p["hh"] < 24 and p.get("xd", 0) in (0, 2) and len(p.get("dec") or "") <= 6 for p in pts)
+    return all(p["prec"] == "hms" and p["hh"] < 24 and p.get("xd", 0) in (0, 2) and len(p.get("dec") or "") <= 6
+               and ((0 <= p["y"] <= 9999) if not p.get("xd") else abs(p["y"]) <= 999999) for p in pts)
 
 
 def build(desc):
